@@ -418,6 +418,10 @@ func DropLast[T any](count int, list ...T) []T {
 		return make([]T, 0)
 	}
 
+	if count <= 0 {
+		return list
+	}
+
 	return list[:(listLen - count)]
 }
 
